@@ -1,20 +1,20 @@
 CONSTANTS
-  Peers = {1, 2}
+  Peers = {1, 2, 3}
   Hashes = {1, 2}
   D = 2
   MaxPar = 3
   MaxPend = 3
-  Horizon = 4
+  Horizon = 3
   HeadCheck = TRUE
   MaxHold = 0
-  CritOn = FALSE
+  CritOn = TRUE
   ExportOn = TRUE
-  SampleMod = 20
-  MaxAnn = 6
+  SampleMod = 4
+  MaxAnn = 5
 INIT MInit
 NEXT MNext
 VIEW view
 INVARIANTS TypeOK
 PROPERTIES StepProps
-ACTION_CONSTRAINT Export
+ACTION_CONSTRAINT ExportCrit
 CHECK_DEADLOCK FALSE
